@@ -92,6 +92,25 @@ Theorem C02_decision_of_current_cluster : forall attl dttl ops,
 Proof. exact decision_of_current_cluster. Qed.
 Print Assumptions C02_decision_of_current_cluster.
 
+(* ResetTransport (GatewayHealthCheck after repeated hanging probes) rebuilds an endpoint's transports from its
+   stored config: after any number of resets a request is still forwarded through the impersonating round
+   tripper, i.e. the pipeline - and with it every theorem above - is independent of the transport generation *)
+Theorem C02_identity_survives_transport_reset : forall n token ip h id authz,
+  pipeline_ep (after_resets n new_endpoint) token ip h id authz = pipeline token ip h id authz.
+Proof. exact identity_survives_transport_reset. Qed.
+Print Assumptions C02_identity_survives_transport_reset.
+
+Example C02_transport_reset_nonvacuous :
+  after_resets 2 new_endpoint = mkEp true true /\
+  pipeline_ep (after_resets 2 new_endpoint) "tok" "10.0.0.9" [("X-Custom", ["1"])] (mkId "alice" ["g1"] []) (fun _ => true) =
+    Forwarded [("X-Custom", ["1"]); ("X-Forwarded-For", ["10.0.0.9"]); ("User-Agent", ["<gateway-user-agent>"]);
+               ("Authorization", ["Bearer tok"]); ("Impersonate-User", ["alice"]); ("Impersonate-Group", ["g1"])] /\
+  (* without the impersonating round tripper the upstream would see the gateway's credential only *)
+  send_with false "tok" "10.0.0.9" (mkId "alice" ["g1"] []) [("X-Custom", ["1"])] =
+    Forwarded [("X-Custom", ["1"]); ("X-Forwarded-For", ["10.0.0.9"]); ("User-Agent", ["<gateway-user-agent>"]);
+               ("Authorization", ["Bearer tok"])].
+Proof. vm_compute. repeat split. Qed.
+
 (* ---- non-vacuity *)
 (* the first decision is cached through an alias, the cluster is deleted and re-created with an RBAC that
    denies: the re-created cluster is asked and the request is refused *)
